@@ -8,85 +8,93 @@ namespace Icinga.C04
 
 /-- Per-checkable invariant: never in both sets; once an ObjectHandler has run after the last write of
     active/paused, "schedulable" and "in one of the sets" coincide; once a NextCheckChangedHandler has run
-    after the last write of next_check, the idle key is the attribute. -/
+    after the last write of next_check, the idle key is the attribute; and PluginCheckTask's bookkeeping:
+    running processes = helpers between spawn and `+1`, plus the outstanding balance of `+1`/`-1`. -/
 def ChkInv (x : Chk) : Prop :=
   ¬(x.inIdle = true ∧ x.inPending = true) ∧
   (x.synced = true → (x.schedulable = true ↔ (x.inIdle = true ∨ x.inPending = true))) ∧
-  (x.keySynced = true → x.inIdle = true → x.idleKey = x.nextCheck)
+  (x.keySynced = true → x.inIdle = true → x.idleKey = x.nextCheck) ∧
+  (x.procs : Int) = (x.hs : Int) + x.pbal
 
-/-- Single-flight invariant: the number of executions in progress is 1 iff `m_CheckRunning`, else 0. -/
-def FlightInv (x : Chk) : Prop := x.hx = if x.running then 1 else 0
+/-- Single-flight invariant: command bodies, running processes and finished processes whose result is still on its
+    way — together 1 iff `m_CheckRunning`, else 0. -/
+def FlightInv (x : Chk) : Prop := x.hx + x.procs + x.pz = if x.running then 1 else 0
 
-/-- Global invariant. -/
+/-- Global invariant: per-checkable invariants, the counter is the sum of the units held, and the slots in use
+    (helpers that may still start something or run a command body, plus running processes) never exceed
+    `max_concurrent_checks`. -/
 def Inv (s : St) : Prop :=
-  (∀ c, ChkInv (s.chk c)) ∧ s.counter = sumTo s.n (fun i => (s.chk i).units) ∧ s.counter ≤ s.max
+  (∀ c, ChkInv (s.chk c)) ∧ s.counter = sumTo s.n (fun i => (s.chk i).units) ∧
+  sumTo s.n (fun i => (s.chk i).slots) ≤ s.max
 
-/-! ### local transitions -/
+/-! ### local transitions: invariant, units (`m_PendingChecks`) and slots -/
 
 theorem chkInv_default : ChkInv {} := by
   unfold ChkInv Chk.schedulable; decide
 
-theorem chkInv_setActive (x : Chk) (b : Bool) (h : ChkInv x) : ChkInv (x.setActive b) := by
-  unfold ChkInv Chk.setActive Chk.schedulable at *; grind
+/-- what a local transition does: keeps the invariant, changes the units by `du`, does not increase the slots -/
+def Keeps (x y : Chk) (du : Int) : Prop := ChkInv y ∧ y.units = x.units + du ∧ y.slots ≤ x.slots
 
-theorem chkInv_setPaused (x : Chk) (b : Bool) (h : ChkInv x) : ChkInv (x.setPaused b) := by
-  unfold ChkInv Chk.setPaused Chk.schedulable at *; grind
+theorem keeps_setActive (x : Chk) (b : Bool) (h : ChkInv x) : Keeps x (x.setActive b) 0 := by
+  unfold Keeps ChkInv Chk.setActive Chk.schedulable Chk.units Chk.slots at *; grind
 
-theorem chkInv_objectHandler (x : Chk) (h : ChkInv x) : ChkInv x.objectHandler := by
-  unfold ChkInv Chk.objectHandler Chk.idleInsert Chk.schedulable at *; grind
+theorem keeps_setPaused (x : Chk) (b : Bool) (h : ChkInv x) : Keeps x (x.setPaused b) 0 := by
+  unfold Keeps ChkInv Chk.setPaused Chk.schedulable Chk.units Chk.slots at *; grind
 
-theorem chkInv_setNextCheck (x : Chk) (v : Int) (h : ChkInv x) : ChkInv (x.setNextCheck v) := by
-  unfold ChkInv Chk.setNextCheck Chk.schedulable at *; grind
+theorem keeps_objectHandler (x : Chk) (h : ChkInv x) : Keeps x x.objectHandler 0 := by
+  unfold Keeps ChkInv Chk.objectHandler Chk.idleInsert Chk.schedulable Chk.units Chk.slots at *; grind
 
-theorem chkInv_nextCheckChanged (x : Chk) (h : ChkInv x) : ChkInv x.nextCheckChanged := by
-  unfold ChkInv Chk.nextCheckChanged Chk.schedulable at *; grind
+theorem keeps_setNextCheck (x : Chk) (v : Int) (h : ChkInv x) : Keeps x (x.setNextCheck v) 0 := by
+  unfold Keeps ChkInv Chk.setNextCheck Chk.schedulable Chk.units Chk.slots at *; grind
 
-theorem chkInv_force (x : Chk) (h : ChkInv x) : ChkInv x.force := by
-  unfold ChkInv Chk.force Chk.schedulable at *; grind
+theorem keeps_nextCheckChanged (x : Chk) (h : ChkInv x) : Keeps x x.nextCheckChanged 0 := by
+  unfold Keeps ChkInv Chk.nextCheckChanged Chk.schedulable Chk.units Chk.slots at *; grind
 
-theorem chkInv_pick (x : Chk) (hi : x.inIdle = true) (h : ChkInv x) : ChkInv x.pick := by
-  unfold ChkInv Chk.pick Chk.schedulable at *; grind
+theorem keeps_force (x : Chk) (h : ChkInv x) : Keeps x x.force 0 := by
+  unfold Keeps ChkInv Chk.force Chk.schedulable Chk.units Chk.slots at *; grind
 
-theorem chkInv_skip (x : Chk) (hi : x.inIdle = true) (h : ChkInv x) : ChkInv x.skip := by
-  unfold ChkInv Chk.skip Chk.schedulable at *; grind
+theorem keeps_skip (x : Chk) (hi : x.inIdle = true) (h : ChkInv x) : Keeps x x.skip 0 := by
+  unfold Keeps ChkInv Chk.skip Chk.schedulable Chk.units Chk.slots at *; grind
 
-theorem chkInv_helperGuard (x : Chk) (h : ChkInv x) : ChkInv x.helperGuard := by
-  unfold ChkInv Chk.helperGuard Chk.schedulable at *; grind
+/-- the dispatch is the one transition that takes a slot -/
+theorem pick_facts (x : Chk) (hi : x.inIdle = true) (h : ChkInv x) :
+    ChkInv x.pick ∧ x.pick.units = x.units + 1 ∧ x.pick.slots = x.slots + 1 := by
+  unfold ChkInv Chk.pick Chk.schedulable Chk.units Chk.slots at *; grind
 
-theorem chkInv_result (x : Chk) (h : ChkInv x) : ChkInv x.result := by
-  unfold ChkInv Chk.result Chk.schedulable at *; grind
+theorem keeps_helperGuard (x : Chk) (hq : 0 < x.hq) (h : ChkInv x) : Keeps x x.helperGuard 0 := by
+  unfold Keeps ChkInv Chk.helperGuard Chk.schedulable Chk.units Chk.slots at *; grind
 
-theorem chkInv_passiveResult (x : Chk) (h : ChkInv x) : ChkInv x.passiveResult := by
-  unfold ChkInv Chk.passiveResult Chk.schedulable at *; grind
+theorem keeps_result (x : Chk) (hx : 0 < x.hx) (h : ChkInv x) : Keeps x x.result 0 := by
+  unfold Keeps ChkInv Chk.result Chk.schedulable Chk.units Chk.slots at *; grind
 
-theorem chkInv_helperDec (x : Chk) (h : ChkInv x) : ChkInv x.helperDec := by
-  unfold ChkInv Chk.helperDec Chk.schedulable at *; grind
+theorem keeps_spawn (x : Chk) (hx : 0 < x.hx) (h : ChkInv x) : Keeps x x.spawn 0 := by
+  unfold Keeps ChkInv Chk.spawn Chk.schedulable Chk.units Chk.slots at *; grind
 
-theorem chkInv_helperFinish (x : Chk) (h : ChkInv x) : ChkInv x.helperFinish := by
-  unfold ChkInv Chk.helperFinish Chk.idleInsert Chk.schedulable at *; grind
+theorem keeps_pluginInc (x : Chk) (hs : 0 < x.hs) (h : ChkInv x) : Keeps x x.pluginInc 1 := by
+  unfold Keeps ChkInv Chk.pluginInc Chk.schedulable Chk.units Chk.slots at *; grind
 
-/-! ### units held by helpers -/
+theorem keeps_procExit (x : Chk) (hp : 0 < x.procs) (h : ChkInv x) : Keeps x x.procExit (-1) := by
+  unfold Keeps ChkInv Chk.procExit Chk.schedulable Chk.units Chk.slots at *; grind
 
-theorem units_setActive (x : Chk) (b : Bool) : (x.setActive b).units = x.units := rfl
-theorem units_setPaused (x : Chk) (b : Bool) : (x.setPaused b).units = x.units := rfl
-theorem units_objectHandler (x : Chk) : x.objectHandler.units = x.units := by
-  unfold Chk.objectHandler Chk.idleInsert Chk.units; grind
-theorem units_setNextCheck (x : Chk) (v : Int) : (x.setNextCheck v).units = x.units := rfl
-theorem units_nextCheckChanged (x : Chk) : x.nextCheckChanged.units = x.units := by
-  unfold Chk.nextCheckChanged Chk.units; grind
-theorem units_force (x : Chk) : x.force.units = x.units := rfl
-theorem units_skip (x : Chk) : x.skip.units = x.units := rfl
-theorem units_pick (x : Chk) : x.pick.units = x.units + 1 := by
-  unfold Chk.pick Chk.units; grind
-theorem units_helperGuard (x : Chk) (h : 0 < x.hq) : x.helperGuard.units = x.units := by
-  unfold Chk.helperGuard Chk.units; grind
-theorem units_result (x : Chk) (h : 0 < x.hx) : x.result.units = x.units := by
-  unfold Chk.result Chk.units; grind
-theorem units_passiveResult (x : Chk) : x.passiveResult.units = x.units := rfl
-theorem units_helperDec (x : Chk) (h : 0 < x.hr) : x.helperDec.units = x.units - 1 := by
-  unfold Chk.helperDec Chk.units; grind
-theorem units_helperFinish (x : Chk) : x.helperFinish.units = x.units := by
-  unfold Chk.helperFinish Chk.idleInsert Chk.units; grind
+theorem keeps_procResult (x : Chk) (h : ChkInv x) : Keeps x x.procResult 0 := by
+  unfold Keeps ChkInv Chk.procResult Chk.schedulable Chk.units Chk.slots at *; grind
+
+theorem keeps_passiveResult (x : Chk) (h : ChkInv x) : Keeps x x.passiveResult 0 := by
+  unfold Keeps ChkInv Chk.passiveResult Chk.schedulable Chk.units Chk.slots at *; grind
+
+theorem keeps_helperDec (x : Chk) (hr : 0 < x.hr) (h : ChkInv x) : Keeps x x.helperDec (-1) := by
+  unfold Keeps ChkInv Chk.helperDec Chk.schedulable Chk.units Chk.slots at *; grind
+
+theorem keeps_helperFinish (x : Chk) (h : ChkInv x) : Keeps x x.helperFinish 0 := by
+  unfold Keeps ChkInv Chk.helperFinish Chk.idleInsert Chk.schedulable Chk.units Chk.slots at *; grind
+
+/-- every slot in use holds a unit of the counter -/
+theorem slots_le_units (x : Chk) (h : ChkInv x) : x.slots ≤ x.units := by
+  unfold ChkInv Chk.units Chk.slots at *; grind
+
+/-- every running execution occupies a slot -/
+theorem execs_le_slots (x : Chk) : (x.execs : Int) ≤ x.slots := by
+  unfold Chk.execs Chk.slots; omega
 
 /-! ### sums -/
 
@@ -130,55 +138,69 @@ theorem sumTo_ge_term (n : Nat) (f : Nat → Int) (h : ∀ i, 0 ≤ f i) (c : Na
     · subst hk; have := sumTo_nonneg c f h; omega
     · have := ih (by omega); have := h k; omega
 
-/-- the units sum after replacing checkable `c`'s state -/
-theorem units_upd (s : St) (c : Nat) (x : Chk) (hc : c < s.n) :
-    sumTo (s.upd c x).n (fun i => ((s.upd c x).chk i).units) =
-    sumTo s.n (fun i => (s.chk i).units) - (s.chk c).units + x.units := by
-  have : (fun i => ((s.upd c x).chk i).units) = (fun i => if i = c then x.units else (s.chk i).units) := by
+/-- a sum over the checkables after replacing checkable `c`'s state -/
+theorem sum_upd (g : Chk → Int) (s : St) (c : Nat) (x : Chk) (hc : c < s.n) :
+    sumTo (s.upd c x).n (fun i => g ((s.upd c x).chk i)) =
+    sumTo s.n (fun i => g (s.chk i)) - g (s.chk c) + g x := by
+  have : (fun i => g ((s.upd c x).chk i)) = (fun i => if i = c then g x else g (s.chk i)) := by
     funext i; simp only [St.upd]; split <;> rfl
-  rw [this]; exact sumTo_update s.n (fun i => (s.chk i).units) c x.units hc
+  rw [this]; exact sumTo_update s.n (fun i => g (s.chk i)) c (g x) hc
 
 /-! ### global invariant -/
 
 theorem inv_init (n : Nat) (max : Int) (hm : 0 ≤ max) : Inv (init n max) := by
-  refine ⟨fun _ => chkInv_default, ?_, hm⟩
-  show (0 : Int) = sumTo n (fun _ => (({} : Chk)).units)
-  have : ∀ k, sumTo k (fun _ => (({} : Chk)).units) = 0 := by
-    intro k; induction k with
+  have z : ∀ (g : Chk → Int), g {} = 0 → ∀ k, sumTo k (fun _ => g ({} : Chk)) = 0 := by
+    intro g hg k; induction k with
     | zero => rfl
-    | succ k ih => simp only [sumTo, ih]; rfl
-  rw [this]
+    | succ k ih => simp only [sumTo]; rw [ih, hg]; rfl
+  refine ⟨fun _ => chkInv_default, ?_, ?_⟩
+  · show (0 : Int) = sumTo n (fun _ => (({} : Chk)).units)
+    rw [z Chk.units rfl]
+  · show sumTo n (fun _ => (({} : Chk)).slots) ≤ max
+    rw [z Chk.slots rfl]; exact hm
 
-/-- replacing one checkable's state by one that keeps its invariant and its units keeps `Inv` -/
-theorem inv_upd_same (s : St) (c : Nat) (x : Chk) (hc : c < s.n) (h : Inv s)
-    (hx : ChkInv x) (hu : x.units = (s.chk c).units) : Inv (s.upd c x) := by
+/-- replacing one checkable's state by a transition that `Keeps`, with the counter following the units -/
+theorem inv_upd (s : St) (c : Nat) (x : Chk) (du : Int) (hc : c < s.n) (h : Inv s) (hk : Keeps (s.chk c) x du) :
+    Inv { s.upd c x with counter := s.counter + du } := by
   obtain ⟨h1, h2, h3⟩ := h
-  refine ⟨?_, ?_, h3⟩
-  · intro i; simp only [St.upd]; split
-    · exact hx
+  obtain ⟨k1, k2, k3⟩ := hk
+  refine ⟨?_, ?_, ?_⟩
+  · intro i; show ChkInv ((s.upd c x).chk i); simp only [St.upd]; split
+    · exact k1
     · exact h1 i
-  · rw [units_upd s c x hc, hu]; show s.counter = _; omega
+  · show s.counter + du = sumTo (s.upd c x).n (fun i => Chk.units ((s.upd c x).chk i))
+    rw [sum_upd Chk.units s c x hc, k2]; omega
+  · show sumTo (s.upd c x).n (fun i => Chk.slots ((s.upd c x).chk i)) ≤ s.max
+    rw [sum_upd Chk.slots s c x hc]; omega
+
+theorem inv_upd0 (s : St) (c : Nat) (x : Chk) (hc : c < s.n) (h : Inv s) (hk : Keeps (s.chk c) x 0) :
+    Inv (s.upd c x) := by
+  have := inv_upd s c x 0 hc h hk
+  simpa [St.upd] using this
+
+theorem slots_le_counter (s : St) (h : Inv s) : sumTo s.n (fun i => (s.chk i).slots) ≤ s.counter := by
+  rw [h.2.1]; exact sumTo_le _ _ _ (fun i => slots_le_units _ (h.1 i))
 
 theorem inv_step (s s' : St) (a : Act) (h : Inv s) (hs : step s a = some s') : Inv s' := by
   cases a with
   | setActive c b =>
     simp only [step] at hs; split at hs <;> simp at hs; subst hs
-    exact inv_upd_same s c _ (by assumption) h (chkInv_setActive _ b (h.1 c)) (units_setActive _ b)
+    exact inv_upd0 s c _ (by assumption) h (keeps_setActive _ b (h.1 c))
   | setPaused c b =>
     simp only [step] at hs; split at hs <;> simp at hs; subst hs
-    exact inv_upd_same s c _ (by assumption) h (chkInv_setPaused _ b (h.1 c)) (units_setPaused _ b)
+    exact inv_upd0 s c _ (by assumption) h (keeps_setPaused _ b (h.1 c))
   | objectHandler c =>
     simp only [step] at hs; split at hs <;> simp at hs; subst hs
-    exact inv_upd_same s c _ (by assumption) h (chkInv_objectHandler _ (h.1 c)) (units_objectHandler _)
+    exact inv_upd0 s c _ (by assumption) h (keeps_objectHandler _ (h.1 c))
   | setNextCheck c v =>
     simp only [step] at hs; split at hs <;> simp at hs; subst hs
-    exact inv_upd_same s c _ (by assumption) h (chkInv_setNextCheck _ v (h.1 c)) (units_setNextCheck _ v)
+    exact inv_upd0 s c _ (by assumption) h (keeps_setNextCheck _ v (h.1 c))
   | nextCheckChanged c =>
     simp only [step] at hs; split at hs <;> simp at hs; subst hs
-    exact inv_upd_same s c _ (by assumption) h (chkInv_nextCheckChanged _ (h.1 c)) (units_nextCheckChanged _)
+    exact inv_upd0 s c _ (by assumption) h (keeps_nextCheckChanged _ (h.1 c))
   | force c =>
     simp only [step] at hs; split at hs <;> simp at hs; subst hs
-    exact inv_upd_same s c _ (by assumption) h (chkInv_force _ (h.1 c)) (units_force _)
+    exact inv_upd0 s c _ (by assumption) h (keeps_force _ (h.1 c))
   | sched c now r e p =>
     simp only [step] at hs
     split at hs
@@ -186,45 +208,56 @@ theorem inv_step (s s' : St) (a : Act) (h : Inv s) (hs : step s a = some s') : I
       obtain ⟨hc, hidle, _, hcnt, _⟩ := hen
       split at hs
       · simp at hs; subst hs
-        exact inv_upd_same s c _ hc h (chkInv_skip _ hidle (h.1 c)) (units_skip _)
+        exact inv_upd0 s c _ hc h (keeps_skip _ hidle (h.1 c))
       · simp at hs; subst hs
+        have hsl := slots_le_counter s h
         obtain ⟨h1, h2, h3⟩ := h
+        obtain ⟨p1, p2, p3⟩ := pick_facts _ hidle (h1 c)
         refine ⟨?_, ?_, ?_⟩
         · intro i; show ChkInv ((s.upd c (s.chk c).pick).chk i)
           simp only [St.upd]; split
-          · exact chkInv_pick _ hidle (h1 c)
+          · exact p1
           · exact h1 i
-        · show s.counter + 1 = sumTo (s.upd c (s.chk c).pick).n (fun i => ((s.upd c (s.chk c).pick).chk i).units)
-          rw [units_upd s c _ hc, units_pick]; omega
-        · show s.counter + 1 ≤ s.max; omega
+        · show s.counter + 1 = sumTo (s.upd c (s.chk c).pick).n (fun i => Chk.units ((s.upd c (s.chk c).pick).chk i))
+          rw [sum_upd Chk.units s c _ hc, p2]; omega
+        · show sumTo (s.upd c (s.chk c).pick).n (fun i => Chk.slots ((s.upd c (s.chk c).pick).chk i)) ≤ s.max
+          rw [sum_upd Chk.slots s c _ hc, p3]; omega
     · simp at hs
   | helperGuard c =>
     simp only [step] at hs; split at hs <;> simp at hs; subst hs
     rename_i hg
-    exact inv_upd_same s c _ hg.1 h (chkInv_helperGuard _ (h.1 c)) (units_helperGuard _ hg.2)
+    exact inv_upd0 s c _ hg.1 h (keeps_helperGuard _ hg.2 (h.1 c))
   | result c =>
     simp only [step] at hs; split at hs <;> simp at hs; subst hs
     rename_i hg
-    exact inv_upd_same s c _ hg.1 h (chkInv_result _ (h.1 c)) (units_result _ hg.2)
+    exact inv_upd0 s c _ hg.1 h (keeps_result _ hg.2 (h.1 c))
+  | spawn c =>
+    simp only [step] at hs; split at hs <;> simp at hs; subst hs
+    rename_i hg
+    exact inv_upd0 s c _ hg.1 h (keeps_spawn _ hg.2 (h.1 c))
+  | pluginInc c =>
+    simp only [step] at hs; split at hs <;> simp at hs; subst hs
+    rename_i hg
+    exact inv_upd s c _ 1 hg.1 h (keeps_pluginInc _ hg.2 (h.1 c))
+  | procExit c =>
+    simp only [step] at hs; split at hs <;> simp at hs; subst hs
+    rename_i hg
+    exact inv_upd s c _ (-1) hg.1 h (keeps_procExit _ hg.2 (h.1 c))
+  | procResult c =>
+    simp only [step] at hs; split at hs <;> simp at hs; subst hs
+    rename_i hg
+    exact inv_upd0 s c _ hg.1 h (keeps_procResult _ (h.1 c))
   | passiveResult c =>
     simp only [step] at hs; split at hs <;> simp at hs; subst hs
-    exact inv_upd_same s c _ (by assumption) h (chkInv_passiveResult _ (h.1 c)) (units_passiveResult _)
+    exact inv_upd0 s c _ (by assumption) h (keeps_passiveResult _ (h.1 c))
   | helperDec c =>
     simp only [step] at hs; split at hs <;> simp at hs; subst hs
     rename_i hg
-    obtain ⟨h1, h2, h3⟩ := h
-    refine ⟨?_, ?_, ?_⟩
-    · intro i; show ChkInv ((s.upd c (s.chk c).helperDec).chk i)
-      simp only [St.upd]; split
-      · exact chkInv_helperDec _ (h1 c)
-      · exact h1 i
-    · show s.counter - 1 = sumTo (s.upd c (s.chk c).helperDec).n (fun i => ((s.upd c (s.chk c).helperDec).chk i).units)
-      rw [units_upd s c _ hg.1, units_helperDec _ hg.2]; omega
-    · show s.counter - 1 ≤ s.max; omega
+    exact inv_upd s c _ (-1) hg.1 h (keeps_helperDec _ hg.2 (h.1 c))
   | helperFinish c =>
     simp only [step] at hs; split at hs <;> simp at hs; subst hs
     rename_i hg
-    exact inv_upd_same s c _ hg.1 h (chkInv_helperFinish _ (h.1 c)) (units_helperFinish _)
+    exact inv_upd0 s c _ hg.1 h (keeps_helperFinish _ (h.1 c))
 
 theorem inv_run (acts : List Act) (s s' : St) (h : Inv s) (hr : run s acts = some s') : Inv s' := by
   induction acts generalizing s with
@@ -278,6 +311,21 @@ theorem flight_step (s s' : St) (a : Act) (hp : a.isPassive = false) (h : ∀ c,
     simp only [step] at hs; split at hs <;> simp at hs; subst hs
     rename_i hg
     exact key c _ (by have := h c; have := hg.2; unfold FlightInv Chk.result at *; grind)
+  | spawn c =>
+    simp only [step] at hs; split at hs <;> simp at hs; subst hs
+    rename_i hg
+    exact key c _ (by have := h c; have := hg.2; unfold FlightInv Chk.spawn at *; grind)
+  | pluginInc c =>
+    simp only [step] at hs; split at hs <;> simp at hs; subst hs
+    exact key c _ (by have := h c; unfold FlightInv Chk.pluginInc at *; grind)
+  | procExit c =>
+    simp only [step] at hs; split at hs <;> simp at hs; subst hs
+    rename_i hg
+    exact key c _ (by have := h c; have := hg.2; unfold FlightInv Chk.procExit at *; grind)
+  | procResult c =>
+    simp only [step] at hs; split at hs <;> simp at hs; subst hs
+    rename_i hg
+    exact key c _ (by have := h c; have := hg.2; unfold FlightInv Chk.procResult at *; grind)
   | passiveResult c => simp [Act.isPassive] at hp
   | helperDec c =>
     simp only [step] at hs; split at hs <;> simp at hs; subst hs
